@@ -1,489 +1,11 @@
-//! Group `bits`: C05 (shifts, rotations), C06 (bitwise logic, bit access, counting).
-#![allow(clippy::all)]
-
-use num_bigint::BigUint;
-use num_traits::Zero;
-use ruint::Uint;
-use vharness::*;
-
-/// run `$e` with `$x` = the amount cast to the primitive type selected by the type code
-macro_rules! by_ty {
-    ($t:expr, $s:expr, |$x:ident| $e:expr) => {
-        match $t {
-            0 => { let $x = $s as usize; $e }
-            1 => { let $x = $s as u8; $e }
-            2 => { let $x = $s as u16; $e }
-            3 => { let $x = $s as u32; $e }
-            4 => { let $x = $s as u64; $e }
-            5 => { let $x = $s as i8; $e }
-            6 => { let $x = $s as i16; $e }
-            7 => { let $x = $s as i32; $e }
-            8 => { let $x = $s as i64; $e }
-            9 => { let $x = $s as isize; $e }
-            _ => panic!("harness: bad type code"),
-        }
+//! Group `bits` at the standard width grid (body: src/groups/bits.rs).
+#![allow(clippy::all, dead_code, unused)]
+macro_rules! width_list {
+    () => {
+        dispatch_widths!(dispatch, call, Op;
+            0, 1, 2, 3, 4, 5, 6, 7, 8, 9, 10, 11, 12, 13, 14, 15, 16,
+    60, 63, 64, 65, 120, 127, 128, 129, 191, 192, 193, 250, 255, 256, 257, 320, 384, 511, 512, 513, 1024, 4096);
     };
 }
-const TY_NAMES: [&str; 10] = ["usize", "u8", "u16", "u32", "u64", "i8", "i16", "i32", "i64", "isize"];
-const TY_MAX: [u128; 10] = [u64::MAX as u128, 255, 65535, u32::MAX as u128, u64::MAX as u128, 127, 32767, i32::MAX as u128, i64::MAX as u128, i64::MAX as u128];
-
-define_ops! {
-    // ---- C05 methods
-    overflowing_shl = |a: U, s: N| a.overflowing_shl(s);
-    checked_shl = |a: U, s: N| a.checked_shl(s);
-    saturating_shl = |a: U, s: N| a.saturating_shl(s);
-    wrapping_shl = |a: U, s: N| a.wrapping_shl(s);
-    overflowing_shr = |a: U, s: N| a.overflowing_shr(s);
-    checked_shr = |a: U, s: N| a.checked_shr(s);
-    wrapping_shr = |a: U, s: N| a.wrapping_shr(s);
-    arithmetic_shr = |a: U, s: N| a.arithmetic_shr(s);
-    rotate_left = |a: U, s: N| a.rotate_left(s);
-    rotate_right = |a: U, s: N| a.rotate_right(s);
-    // ---- C05 operators with primitive amounts (t = type code, see TY_NAMES)
-    shl_prim = |a: U, t: N, s: W| by_ty!(t, s, |x| a << x);
-    shl_prim_ref = |a: U, t: N, s: W| by_ty!(t, s, |x| a << &x);
-    shl_assign_prim = |a: U, t: N, s: W| by_ty!(t, s, |x| { a <<= x; a });
-    shl_assign_prim_ref = |a: U, t: N, s: W| by_ty!(t, s, |x| { a <<= &x; a });
-    shr_prim = |a: U, t: N, s: W| by_ty!(t, s, |x| a >> x);
-    shr_prim_ref = |a: U, t: N, s: W| by_ty!(t, s, |x| a >> &x);
-    shr_assign_prim = |a: U, t: N, s: W| by_ty!(t, s, |x| { a >>= x; a });
-    shr_assign_prim_ref = |a: U, t: N, s: W| by_ty!(t, s, |x| { a >>= &x; a });
-    // ---- C05 operators with Uint amounts
-    shl_uint = |a: U, s: U| a << s;
-    shl_uint_ref = |a: U, s: U| a << &s;
-    shl_assign_uint = |a: U, s: U| { a <<= s; a };
-    shl_assign_uint_ref = |a: U, s: U| { a <<= &s; a };
-    shr_uint = |a: U, s: U| a >> s;
-    shr_uint_ref = |a: U, s: U| a >> &s;
-    shr_assign_uint = |a: U, s: U| { a >>= s; a };
-    shr_assign_uint_ref = |a: U, s: U| { a >>= &s; a };
-    // ---- C06
-    not_m = |a: U| Uint::not(a);
-    not_v = |a: U| !a;
-    not_r = |a: U| !&a;
-    and_vv = |a: U, b: U| a & b;
-    and_vr = |a: U, b: U| a & &b;
-    and_rv = |a: U, b: U| &a & b;
-    and_rr = |a: U, b: U| &a & &b;
-    and_assign_v = |a: U, b: U| { a &= b; a };
-    and_assign_r = |a: U, b: U| { a &= &b; a };
-    or_vv = |a: U, b: U| a | b;
-    or_vr = |a: U, b: U| a | &b;
-    or_rv = |a: U, b: U| &a | b;
-    or_rr = |a: U, b: U| &a | &b;
-    or_assign_v = |a: U, b: U| { a |= b; a };
-    or_assign_r = |a: U, b: U| { a |= &b; a };
-    xor_vv = |a: U, b: U| a ^ b;
-    xor_vr = |a: U, b: U| a ^ &b;
-    xor_rv = |a: U, b: U| &a ^ b;
-    xor_rr = |a: U, b: U| &a ^ &b;
-    xor_assign_v = |a: U, b: U| { a ^= b; a };
-    xor_assign_r = |a: U, b: U| { a ^= &b; a };
-    bit = |a: U, i: N| a.bit(i);
-    set_bit = |a: U, i: N, v: BO| { a.set_bit(i, v); a };
-    byte = |a: U, i: N| a.byte(i);
-    checked_byte = |a: U, i: N| a.checked_byte(i);
-    reverse_bits = |a: U| a.reverse_bits();
-    leading_zeros = |a: U| a.leading_zeros();
-    leading_ones = |a: U| a.leading_ones();
-    trailing_zeros = |a: U| a.trailing_zeros();
-    trailing_ones = |a: U| a.trailing_ones();
-    count_ones = |a: U| a.count_ones();
-    count_zeros = |a: U| a.count_zeros();
-    bit_len = |a: U| a.bit_len();
-    byte_len = |a: U| a.byte_len();
-    most_significant_bits = |a: U| a.most_significant_bits();
-    is_power_of_two = |a: U| a.is_power_of_two();
-    next_power_of_two = |a: U| a.next_power_of_two();
-    checked_next_power_of_two = |a: U| a.checked_next_power_of_two();
-}
-
-dispatch_widths!(dispatch, call, Op;
-    0, 1, 2, 3, 4, 5, 6, 7, 8, 9, 10, 11, 12, 13, 14, 15, 16,
-    60, 63, 64, 65, 120, 127, 128, 129, 191, 192, 193, 250, 255, 256, 257, 320, 384, 511, 512, 513, 1024, 4096);
-
-const W_EDGE_QUICK: &[usize] = &[63, 64, 65, 127, 128, 129, 192, 256, 257];
-const W_EDGE: &[usize] = &[60, 63, 64, 65, 120, 127, 128, 129, 191, 192, 193, 250, 255, 256, 257, 320, 384, 511, 512, 513, 1024];
-
-fn u(v: &BigUint, bits: usize) -> V {
-    V::U(to_limbs(v, bits))
-}
-fn vu(l: &Limbs) -> V {
-    V::U(l.clone())
-}
-fn maxv(bits: usize) -> V {
-    V::U(max_limbs(bits))
-}
-
-fn model(bits: usize, op: Op, args: &[V]) -> Expect {
-    use Op::*;
-    let m = pow2(bits);
-    let a = big(args[0].limbs());
-    let zero = || u(&BigUint::zero(), bits);
-    match op {
-        overflowing_shl | checked_shl | saturating_shl | wrapping_shl | shl_prim | shl_prim_ref | shl_assign_prim | shl_assign_prim_ref | shl_uint | shl_uint_ref | shl_assign_uint
-        | shl_assign_uint_ref => {
-            // amount as an integer of any magnitude
-            let s: BigUint = match op {
-                shl_uint | shl_uint_ref | shl_assign_uint | shl_assign_uint_ref => big(args[1].limbs()),
-                shl_prim | shl_prim_ref | shl_assign_prim | shl_assign_prim_ref => BigUint::from(args[2].as_n()),
-                _ => BigUint::from(args[1].as_n()),
-            };
-            let huge = s > BigUint::from(bits as u64 + 200_000);
-            let (val, o) = if huge || a.is_zero() {
-                (BigUint::zero(), !a.is_zero())
-            } else {
-                let sh = &a << s.iter_u64_digits().next().unwrap_or(0) as usize;
-                (&sh % &m, sh >= m)
-            };
-            let nt = s >= BigUint::from(64u32) || o;
-            match op {
-                overflowing_shl => is(V::T(vec![u(&val, bits), V::B(o)])),
-                checked_shl => is(if o { V::None } else { V::some(u(&val, bits)) }),
-                saturating_shl => is(if o { maxv(bits) } else { u(&val, bits) }),
-                _ => is(u(&val, bits)),
-            }
-            .nt(nt)
-        }
-        overflowing_shr | checked_shr | wrapping_shr | shr_prim | shr_prim_ref | shr_assign_prim | shr_assign_prim_ref | shr_uint | shr_uint_ref | shr_assign_uint | shr_assign_uint_ref => {
-            let s: BigUint = match op {
-                shr_uint | shr_uint_ref | shr_assign_uint | shr_assign_uint_ref => big(args[1].limbs()),
-                shr_prim | shr_prim_ref | shr_assign_prim | shr_assign_prim_ref => BigUint::from(args[2].as_n()),
-                _ => BigUint::from(args[1].as_n()),
-            };
-            let huge = s > BigUint::from(bits as u64 + 200_000);
-            let (val, o) = if huge || a.is_zero() {
-                (BigUint::zero(), !a.is_zero())
-            } else {
-                let k = s.iter_u64_digits().next().unwrap_or(0) as usize;
-                let v = &a >> k;
-                let o = (&v << k) != a;
-                (v, o)
-            };
-            let nt = s >= BigUint::from(64u32) || o;
-            match op {
-                overflowing_shr => is(V::T(vec![u(&val, bits), V::B(o)])),
-                checked_shr => is(if o { V::None } else { V::some(u(&val, bits)) }),
-                _ => is(u(&val, bits)),
-            }
-            .nt(nt)
-        }
-        arithmetic_shr => {
-            let s = args[1].as_n() as usize;
-            if bits == 0 {
-                return is(zero());
-            }
-            let sign = a.bit(bits as u64 - 1);
-            let mut e = if s > bits + 64 { BigUint::zero() } else { &a >> s };
-            if sign {
-                // ones in positions [bits - min(s,bits), bits)
-                let k = s.min(bits);
-                let ones = (pow2(k) - 1u32) << (bits - k);
-                e |= ones;
-            }
-            is(u(&e, bits)).nt(sign && s > 0)
-        }
-        rotate_left | rotate_right => {
-            let s = args[1].as_n() as usize;
-            if bits == 0 {
-                return is(zero());
-            }
-            let k = if op == rotate_left { s % bits } else { (bits - s % bits) % bits };
-            let rot = ((&a << k) | (&a >> (bits - k))) % &m;
-            is(u(&rot, bits)).nt(k != 0)
-        }
-        not_m | not_v | not_r => is(u(&(&m - 1u32 - &a), bits)).nt(true),
-        and_vv | and_vr | and_rv | and_rr | and_assign_v | and_assign_r => is(u(&(&a & big(args[1].limbs())), bits)).nt(true),
-        or_vv | or_vr | or_rv | or_rr | or_assign_v | or_assign_r => is(u(&(&a | big(args[1].limbs())), bits)).nt(true),
-        xor_vv | xor_vr | xor_rv | xor_rr | xor_assign_v | xor_assign_r => is(u(&(&a ^ big(args[1].limbs())), bits)).nt(true),
-        bit => {
-            let i = args[1].as_n() as usize;
-            is(V::B(i < bits && a.bit(i as u64))).nt(i >= 64 || i >= bits)
-        }
-        set_bit => {
-            let i = args[1].as_n() as usize;
-            let v = args[2].as_b();
-            let mut e = a.clone();
-            if i < bits {
-                e.set_bit(i as u64, v);
-            }
-            is(u(&e, bits)).nt(i >= 64 || i >= bits)
-        }
-        byte | checked_byte => {
-            let i = args[1].as_n() as usize;
-            let nbytes = (bits + 7) / 8;
-            if i < nbytes {
-                let b = ((&a >> (8 * i)) % 256u32).iter_u64_digits().next().unwrap_or(0);
-                is(if op == byte { V::N(b as u128) } else { V::some(V::N(b as u128)) }).nt(i >= 8)
-            } else {
-                is(if op == byte { V::Panic } else { V::None }).nt(true)
-            }
-        }
-        reverse_bits => {
-            let mut rev = BigUint::zero();
-            for i in 0..bits {
-                if a.bit(i as u64) {
-                    rev.set_bit((bits - 1 - i) as u64, true);
-                }
-            }
-            is(u(&rev, bits)).nt(!a.is_zero())
-        }
-        leading_zeros => is(V::n(bits - a.bits() as usize)).nt(true),
-        leading_ones => {
-            let nb = &m - 1u32 - &a;
-            is(V::n(bits - nb.bits() as usize)).nt(true)
-        }
-        trailing_zeros => is(V::n(a.trailing_zeros().map_or(bits, |x| x as usize))).nt(true),
-        trailing_ones => {
-            let nb = &m - 1u32 - &a;
-            is(V::n(nb.trailing_zeros().map_or(bits, |x| x as usize))).nt(true)
-        }
-        count_ones => is(V::n(a.count_ones() as usize)).nt(true),
-        count_zeros => is(V::n(bits - a.count_ones() as usize)).nt(true),
-        bit_len => is(V::n(a.bits() as usize)).nt(true),
-        byte_len => is(V::n((a.bits() as usize + 7) / 8)).nt(true),
-        most_significant_bits => {
-            let bl = a.bits() as usize;
-            let (b, e) = if bl <= 64 { (a.clone(), 0) } else { (&a >> (bl - 64), bl - 64) };
-            is(V::T(vec![V::N(b.iter_u64_digits().next().unwrap_or(0) as u128), V::n(e)])).nt(bl > 64)
-        }
-        is_power_of_two => is(V::B(a.count_ones() == 1)).nt(true),
-        next_power_of_two | checked_next_power_of_two => {
-            let e = if a.count_ones() == 1 {
-                Some(a.clone())
-            } else {
-                let p = pow2(a.bits() as usize);
-                if p < m { Some(p) } else { None }
-            };
-            match (op, e) {
-                (next_power_of_two, Some(p)) => is(u(&p, bits)),
-                (next_power_of_two, None) => is(V::Panic),
-                (_, Some(p)) => is(V::some(u(&p, bits))),
-                (_, None) => is(V::None),
-            }
-            .nt(true)
-        }
-    }
-}
-
-group_glue!();
-
-const SH_METHODS: &[Op] = &[
-    Op::overflowing_shl, Op::checked_shl, Op::saturating_shl, Op::wrapping_shl, Op::overflowing_shr, Op::checked_shr, Op::wrapping_shr,
-    Op::arithmetic_shr, Op::rotate_left, Op::rotate_right,
-];
-const SH_PRIM: &[Op] = &[
-    Op::shl_prim, Op::shl_prim_ref, Op::shl_assign_prim, Op::shl_assign_prim_ref, Op::shr_prim, Op::shr_prim_ref, Op::shr_assign_prim,
-    Op::shr_assign_prim_ref,
-];
-const SH_UINT: &[Op] = &[
-    Op::shl_uint, Op::shl_uint_ref, Op::shl_assign_uint, Op::shl_assign_uint_ref, Op::shr_uint, Op::shr_uint_ref, Op::shr_assign_uint,
-    Op::shr_assign_uint_ref,
-];
-
-fn values_for(r: &Runner, bits: usize, budget: usize) -> (Vec<Limbs>, String) {
-    let sl = salt(r.seed);
-    pick(bits, budget, if nlimbs(bits) <= 3 { &sl } else { &[] })
-}
-
-fn c05(r: &Runner) {
-    r.set_rule("cases = (width, entry point, value, amount); values: S(B) for B <= 10 (12 thorough), L/R/P(B) at edge widths; amounts: EVERY s in [0, BITS + 64*LIMBS + 1] for the methods, every such s that fits the amount type for the 10 primitive-typed operator overloads (x value/reference x plain/assign), and Uint-typed amounts {small amounts} + every value of L(B;A3)+R(B) (any magnitude, incl. >= 2^64 and >= 2^128). non-trivial = amount >= 64 (whole limbs move) or a non-zero bit is shifted out");
-    let mut widths: Vec<usize> = (0..=if r.is_thorough() { 12 } else { 10 }).collect();
-    widths.extend(if r.is_thorough() { W_EDGE.to_vec() } else { W_EDGE_QUICK.to_vec() });
-    if !r.is_thorough() {
-        widths.push(1024);
-    }
-    for bits in widths {
-        let smax = bits + 64 * nlimbs(bits) + 1;
-        // budget: values x amounts x 10 methods stays below ~3*10^7 (quick) / 3*10^8 (thorough) per width
-        let per = if r.is_thorough() { 30_000_000 } else { 3_000_000 };
-        let (vals, d) = values_for(r, bits, (per / (smax + 1)).max(8));
-        r.universe(&format!("{d} x s in 0..={smax} (methods)"), bits, vals.len(), |i, l| {
-            let a = vu(&vals[i]);
-            for s in 0..=smax {
-                let args = [a.clone(), V::n(s)];
-                l.states(1);
-                for &op in SH_METHODS {
-                    exec(l, bits, op, &args);
-                }
-            }
-        });
-        // operator overloads: value set = P(B) (every single-bit position and its neighbours) + extremes
-        let pv = if bits <= 6 { small_all(bits) } else if 30 * bits * smax > per { pow2_sparse(bits) } else { pow2_nbhd(bits) };
-        r.universe(&format!("{} values x 10 amount types x s in 0..={smax} (operators)", pv.len()), bits, pv.len(), |i, l| {
-            let a = vu(&pv[i]);
-            for s in 0..=smax {
-                for t in 0..10usize {
-                    if s as u128 > TY_MAX[t] {
-                        continue;
-                    }
-                    let args = [a.clone(), V::n(t), V::N(s as u128)];
-                    l.states(1);
-                    for &op in SH_PRIM {
-                        exec(l, bits, op, &args);
-                    }
-                }
-            }
-            // type maxima: amounts far beyond the width
-            for t in 0..10usize {
-                let args = [a.clone(), V::n(t), V::N(TY_MAX[t])];
-                l.states(1);
-                for &op in SH_PRIM {
-                    exec(l, bits, op, &args);
-                }
-            }
-        });
-        // Uint-typed amounts
-        if bits > 0 {
-            let mp = pow2(bits);
-            let mut am: Vec<Limbs> = vec![];
-            for s in [0usize, 1, 2, 63, 64, 65, bits - 1, bits, bits + 1, 64 * nlimbs(bits) - 1, 64 * nlimbs(bits), 64 * nlimbs(bits) + 1, bits / 2] {
-                let b = BigUint::from(s);
-                if b < mp {
-                    am.push(to_limbs(&b, bits));
-                }
-            }
-            if bits <= 8 {
-                am.extend(small_all(bits));
-            } else {
-                am.extend(wide(bits, A3, true, &[]).0);
-                // k * 2^(64 j) + small: high limbs set, low limb a small in-range amount
-                for j in 1..nlimbs(bits) {
-                    for low in [0u64, 1, 5] {
-                        let mut l = vec![0u64; nlimbs(bits)];
-                        l[0] = low;
-                        l[j] = 1;
-                        if l[nlimbs(bits) - 1] & !mask(bits) == 0 {
-                            am.push(l);
-                        }
-                    }
-                }
-            }
-            am.sort();
-            am.dedup();
-            let pv2 = if bits <= 8 { small_all(bits) } else if 3 * bits * am.len() > per { pow2_sparse(bits) } else { pow2_nbhd(bits) };
-            r.universe(&format!("{} values x {} Uint-typed amounts", pv2.len(), am.len()), bits, pv2.len(), |i, l| {
-                let a = vu(&pv2[i]);
-                for s in &am {
-                    let args = [a.clone(), vu(s)];
-                    l.states(1);
-                    for &op in SH_UINT {
-                        exec(l, bits, op, &args);
-                    }
-                }
-            });
-        } else {
-            r.universe_seq("U0 Uint-typed amounts", 0, |l| {
-                let args = [V::U(vec![]), V::U(vec![])];
-                l.states(1);
-                for &op in SH_UINT {
-                    exec(l, 0, op, &args);
-                }
-            });
-        }
-    }
-    r.extra("amount_types", serde_json::json!(TY_NAMES));
-}
-
-const C06_UN: &[Op] = &[
-    Op::not_m, Op::not_v, Op::not_r, Op::reverse_bits, Op::leading_zeros, Op::leading_ones, Op::trailing_zeros, Op::trailing_ones, Op::count_ones,
-    Op::count_zeros, Op::bit_len, Op::byte_len, Op::most_significant_bits, Op::is_power_of_two, Op::next_power_of_two, Op::checked_next_power_of_two,
-];
-const C06_BIN: &[Op] = &[
-    Op::and_vv, Op::and_vr, Op::and_rv, Op::and_rr, Op::and_assign_v, Op::and_assign_r, Op::or_vv, Op::or_vr, Op::or_rv, Op::or_rr, Op::or_assign_v,
-    Op::or_assign_r, Op::xor_vv, Op::xor_vr, Op::xor_rv, Op::xor_rr, Op::xor_assign_v, Op::xor_assign_r,
-];
-
-fn c06(r: &Runner) {
-    r.set_rule("unary operations on every value of S(B), B <= 16, and of L/R/P(B) at edge widths and 1024/4096; binary logic on all pairs of S(B), B <= 8 (10 thorough), and of the wide universes; indexed accessors on every index in [0, BITS+64] (bit, set_bit with both values) resp. [0, BYTES+8] (byte, checked_byte). every case is counted as non-trivial except in-range low-limb index reads");
-    for bits in 0..=16usize {
-        let u = small_all(bits);
-        r.universe(&format!("S({bits}) unary"), bits, u.len(), |i, l| {
-            let args = [vu(&u[i])];
-            l.states(1);
-            for &op in C06_UN {
-                exec(l, bits, op, &args);
-            }
-        });
-        if bits <= if r.is_thorough() { 12 } else { 10 } {
-            indexed(r, bits, &u, &format!("S({bits})"));
-        }
-    }
-    for bits in 0..=if r.is_thorough() { 10 } else { 8usize } {
-        let u = small_all(bits);
-        r.universe(&format!("S({bits})^2 logic"), bits, u.len(), |i, l| {
-            for b in &u {
-                let args = [vu(&u[i]), vu(b)];
-                l.states(1);
-                for &op in C06_BIN {
-                    exec(l, bits, op, &args);
-                }
-            }
-        });
-    }
-    let mut ws = if r.is_thorough() { W_EDGE.to_vec() } else { W_EDGE_QUICK.to_vec() };
-    if !ws.contains(&1024) {
-        ws.push(1024);
-    }
-    ws.push(4096);
-    for bits in ws {
-        let per = if r.is_thorough() { 20_000_000 } else { 2_000_000 };
-        let (vals, d) = values_for(r, bits, if r.is_thorough() { 200_000 } else { 20_000 });
-        r.universe(&format!("{d} unary"), bits, vals.len(), |i, l| {
-            let args = [vu(&vals[i])];
-            l.states(1);
-            for &op in C06_UN {
-                exec(l, bits, op, &args);
-            }
-        });
-        let (bv, bd) = values_for(r, bits, ((per / 18) as f64).sqrt() as usize);
-        r.universe(&format!("({bd})^2 logic"), bits, bv.len(), |i, l| {
-            for b in &bv {
-                let args = [vu(&bv[i]), vu(b)];
-                l.states(1);
-                for &op in C06_BIN {
-                    exec(l, bits, op, &args);
-                }
-            }
-        });
-        let (iv, id) = values_for(r, bits, (per / (3 * (bits + 65))).max(8));
-        indexed(r, bits, &iv, &id);
-    }
-}
-
-fn indexed(r: &Runner, bits: usize, vals: &[Limbs], d: &str) {
-    r.universe(&format!("{d} x index 0..={}", bits + 64), bits, vals.len(), |i, l| {
-        let a = vu(&vals[i]);
-        for idx in 0..=bits + 64 {
-            l.states(1);
-            exec(l, bits, Op::bit, &[a.clone(), V::n(idx)]);
-            exec(l, bits, Op::set_bit, &[a.clone(), V::n(idx), V::B(false)]);
-            exec(l, bits, Op::set_bit, &[a.clone(), V::n(idx), V::B(true)]);
-        }
-        for idx in 0..=(bits + 7) / 8 + 8 {
-            l.states(1);
-            exec(l, bits, Op::byte, &[a.clone(), V::n(idx)]);
-            exec(l, bits, Op::checked_byte, &[a.clone(), V::n(idx)]);
-        }
-    });
-}
-
-fn main() {
-    let (prop, tier, seed, replay_path) = args_env();
-    if let Some(p) = replay_path {
-        std::process::exit(replay(&p));
-    }
-    let r = Runner::new("mc_bits", &prop, &tier, seed);
-    r.assume("x86_64, 64-bit usize, harness profile = release + debug-assertions + overflow-checks");
-    r.assume("reference model: BigUint binary expansion; values cross the boundary only as raw limbs");
-    r.assume("negative amounts of signed amount types are outside the property and are not explored");
-    match prop.as_str() {
-        "C05" => c05(&r),
-        "C06" => c06(&r),
-        _ => {
-            eprintln!("mc_bits: unknown property '{prop}' (C05 C06)");
-            std::process::exit(2);
-        }
-    }
-    std::process::exit(r.finish());
-}
+const SWEEP: bool = false;
+include!("../groups/bits.rs");
